@@ -43,6 +43,13 @@ LIGHT_STAT_METHODS = ("asdict", "asnumpy", "aslist")
 # to_hypergraph_dict: networkx-style by design) is an observation.
 OBSERVATION_CLASSES = {"alias-attrs", "alias-net-attrs"}
 ATTR_DICT_PATH = re.compile(r"^ret\._(?:node|edge)_attr\[[^\[\]]*\]$|^ret\._net_attr$")
+# ... with one exception (mutation sweep mut-c07c08): a returned NETWORK - dual(), `<<`, to_hypergraph(H), subhypergraph, the
+# in_place=False variants ... "build a new network" (anchor) - that keeps one of the argument's attribute dicts AS ITS OWN
+# attribute dict (its network-attribute dict or the record of one of its nodes / edges) is not a view handing out a stored
+# dict: every public attribute setter of the result (`R["k"] = v`, R.set_node_attributes, add_node(n, **attr)) then rewrites
+# the "unchanged" input.  Such a result is a VIOLATION (`returned-network-shares-net-attrs`, `returned-network-shares-attrs`);
+# no function of the pinned tree does it (each rebuilds the dicts through add_nodes_from / add_edges_from / deepcopy).
+RESULT_NET_ATTR = re.compile(r"\._(?:node|edge)_attr\[[^\[\]]*\]$|\._net_attr$")
 
 # Targets for which NO call can complete on any network, because xgi itself raises for every input (documented here so
 # that a target with zero completed calls is otherwise always reported - a new public function is never silently accepted).
@@ -69,9 +76,12 @@ def alias_class(cls, detail):
     return "alias-" + cls
 
 
-def shared_class(internal_path):
-    """failure class of 'the result contains one of the argument's own containers' from where that container lives"""
+def shared_class(internal_path, result_path=""):
+    """failure class of 'the result contains one of the argument's own containers' from where that container lives in the
+    argument (and, for attribute dicts, where it lives in the result: as the attribute dict OF A RETURNED NETWORK or not)"""
     if ATTR_DICT_PATH.match(internal_path):
+        if RESULT_NET_ATTR.search(result_path):
+            return "returned-network-shares-net-attrs" if internal_path == "ret._net_attr" else "returned-network-shares-attrs"
         return "alias-net-attrs" if internal_path == "ret._net_attr" else "alias-attrs"
     if internal_path.startswith("ret._edge["):
         return "alias-members"
@@ -527,7 +537,11 @@ def check_call(ctx, t, subj, args, kwargs, env, record=True):
         internal = subj.internal_ids()
         shared = [(conts[i][1], internal[i]) for i in conts if i in internal]
         ctx.stats["alias:containers-walked"] += len(conts)
-        ctx.stats["alias:shared-user-attribute-values"] += sum(1 for i in conts if i in subj.nested)
+        n_nested = sum(1 for i in conts if i in subj.nested)
+        ctx.stats["alias:shared-user-attribute-values"] += n_nested
+        if n_nested and record:                         # per site, so that a dropped deepcopy (dual, copy) shows in the evidence
+            by_site = ctx.extra.setdefault("results_sharing_caller_supplied_nested_values", {})
+            by_site[t.vsite] = by_site.get(t.vsite, 0) + 1
         ctx.stats["alias:live-views-returned"] += len(live)
         same_object = ret is net
         touched = L.scribble(conts, subj.nested)
@@ -545,7 +559,7 @@ def check_call(ctx, t, subj, args, kwargs, env, record=True):
         # containers found by identity that the scribbling did not show (an ID dict refusing the sentinel, the counter ...)
         by_cls = {}
         for rp, ip in shared:
-            by_cls.setdefault(shared_class(ip), []).append((rp, ip))
+            by_cls.setdefault(shared_class(ip, rp), []).append((rp, ip))
         for ac, lst in sorted(by_cls.items()):
             if ac not in seen and not (ac in OBSERVATION_CLASSES and seen & OBSERVATION_CLASSES):
                 viol.append((ac, f"{t.site}(args={args}, kwargs={kwargs}) on {subj.spec['label']}: the result "
@@ -656,6 +670,17 @@ def oracle_selftest(ctx):
             got = repr(ex)
         if got != cls:
             problems.append(f"oracle self-test: sharing of {cls[6:]} classified as {got}")
+    # a returned network that keeps an attribute dict of the argument as its own attribute dict: violation classes
+    H, nested = L.build(sp)
+    internal = {i: p_ for i, (o, p_) in L.reach(H)[0].items() if i not in nested}
+    R = xgi.Hypergraph()
+    R.add_node("r")
+    R._net_attr = H._net_attr                    # what `dual._net_attr = self._net_attr` would do
+    R._node_attr["r"] = H._edge_attr["e"]        # an edge record of the argument adopted as node record of the result
+    got = sorted({shared_class(internal[i], p_) for i, (o, p_) in L.reach([R])[0].items() if i in internal})
+    ctx.stats["selftest"] += 2
+    if got != ["returned-network-shares-attrs", "returned-network-shares-net-attrs"]:
+        problems.append(f"oracle self-test: a returned network adopting attribute dicts of the argument classified as {got}")
     # the aliasing walk must see a handed-out internal set
     H, nested = L.build(sp)
     tbl = next(v for v in vars(H).values() if isinstance(v, dict) and list(v) == list(H.edges) and all(isinstance(x, set) for x in v.values()))
